@@ -89,6 +89,10 @@ func (s *shared) cliLevel(cases []cliCase) int {
 			args = append(args, "run", "task")
 		}
 		args = append(args, names...)
+		if i%4 == 2 {
+			// words after `--` are for the tasks: they are no targets and leave the exit status alone
+			args = append(args, "--", "extra", "k=v")
+		}
 		res := core.RunBin(d, core.CleanEnv(home), 30*time.Second, "", s.env.Taskctl, args...)
 		atomic.AddInt64(&n, 1)
 		detail := map[string]interface{}{"argv": names, "form": c.Form, "model": c, "exit": res.Exit, "stderr": tailS(res.Stderr, 600)}
